@@ -57,6 +57,7 @@ type frame struct {
 
 // Interp executes one path.
 type Interp struct {
+	termNames map[string]string
 	pcLits map[string]bool // literal text of the asserted path constraints (branch shortcut)
 	P       *Program
 	cfg     *Config
@@ -818,6 +819,9 @@ func (in *Interp) callBuiltin(caller *frame, fn *ssa.Builtin, args []value) valu
 			}
 			return uint64(len((*x).(array)))
 		case []value:
+			if v, ok := in.abstractLen(caller, x); ok { // intr_C29.go
+				return v
+			}
 			return uint64(len(x))
 		case *omap:
 			if x == nil {
